@@ -3,7 +3,7 @@
    start with 1 (Some) or 0 (None / error).  The command numbers are read by tools/models.py
    from the CMD comments below. *)
 From Coq Require Import ZArith List Bool.
-From VV Require Import lib.PyInt lib.PyFloat gen.GenTables model.Driver hw.Npu hw.Defuse.
+From VV Require Import lib.PyInt lib.PyFloat gen.GenTables model.Driver hw.Npu hw.Defuse model.Arena.
 Import ListNotations.
 Open Scope Z_scope.
 
@@ -177,6 +177,33 @@ Definition run_check_defuse (a : list Z) : list Z :=
   | _ => [-1]
   end.
 
+(* ---- C12 ---- *)
+Fixpoint take_atens (n : nat) (a : list Z) : list atens * list Z :=
+  match n, a with
+  | S n', o :: sz :: f :: l :: t => let '(r, rest) := take_atens n' t in
+                                    ({| a_off := o; a_size := sz; a_first := f; a_last := l |} :: r, rest)
+  | _, _ => ([], a)
+  end.
+(* CMD check_arena = 7 : align has_scratch s_off s_size reported n (off size first last)* nfp e* ntouched (off size first last)*
+   -> [ok] *)
+Definition run_check_arena (a : list Z) : list Z :=
+  match a with
+  | align :: hs :: soff :: ssz :: rep :: n :: t =>
+      let '(l, t1) := take_atens (Z.to_nat n) t in
+      match t1 with
+      | nfp :: t2 =>
+          let '(fps, t3) := take_n (Z.to_nat nfp) t2 in
+          match t3 with
+          | nt :: t4 =>
+              let '(touched, _) := take_atens (Z.to_nat nt) t4 in
+              [if check_arena align l (negb (hs =? 0)) soff ssz fps touched rep then 1 else 0]
+          | [] => [-1]
+          end
+      | [] => [-1]
+      end
+  | _ => [-1]
+  end.
+
 Definition run (cmd : Z) (a : list Z) : list Z :=
   if cmd =? 1 then run_driver_payload a
   else if cmd =? 2 then run_driver_parse a
@@ -184,4 +211,5 @@ Definition run (cmd : Z) (a : list Z) : list Z :=
   else if cmd =? 4 then run_decode_stream a
   else if cmd =? 5 then run_footprints a
   else if cmd =? 6 then run_check_defuse a
+  else if cmd =? 7 then run_check_arena a
   else [-1].
